@@ -46,6 +46,8 @@ for meta_path in sorted(glob.glob(V + "/seeded/*/meta.json")):
                 subprocess.run(["pkill", "-9", "-f", "^" + BUILD + "/.*[.]test"])  # orphans of a timed-out check (not those of background sweeps, which live elsewhere)
     finally:
         subprocess.run(["git", "-C", R, "checkout", "--", "."])
+        if R != "/repo":
+            subprocess.run(["git", "-C", R, "clean", "-fdq"])  # files a patch added (scratch worktrees only)
     meta["detected_by"] = det
     json.dump(meta, open(meta_path, "w"), indent=1)
     rows.append((sid, "; ".join("%s rc=%d" % (x["check"], x["exit"]) for x in det), "; ".join(s for x in det for s in x["signatures"][:2])))
